@@ -6,10 +6,15 @@ import (
 	"crypto/hmac"
 	"crypto/sha256"
 	"net/http"
+	"net/http/httptest"
+	"net/url"
+	"strconv"
 	"strings"
 	"testing"
 	"time"
 
+	"github.com/oauth2-proxy/oauth2-proxy/v7/pkg/apis/options"
+	sessionsapi "github.com/oauth2-proxy/oauth2-proxy/v7/pkg/apis/sessions"
 	"github.com/oauth2-proxy/oauth2-proxy/v7/pkg/encryption"
 )
 
@@ -48,6 +53,8 @@ func vValidateCase(out *vEmitter, label string, nontrivial bool, secret, name, v
 }
 
 func driveC09(t *testing.T, out *vEmitter) {
+	vKeys()
+	defer driveC09Stores(t, out)
 	r := vRand()
 	secret := "0123456789abcdefghijklmnopqrstuv"
 	name := "_oauth2_proxy"
@@ -105,5 +112,119 @@ func driveC09(t *testing.T, out *vEmitter) {
 		h.Write([]byte(msg))
 		sig := encodeURL(h.Sum(nil))
 		vValidateCase(out, "odd-timestamp", true, secret, name, ev+"|"+ts+"|"+sig, 0)
+	}
+}
+
+// driveC09Stores: the lifetime clauses through both session stores of the real proxy.
+func driveC09Stores(t *testing.T, out *vEmitter) {
+	for _, redis := range []bool{false, true} {
+		for _, exp := range []time.Duration{90 * time.Second, time.Hour, 168 * time.Hour} {
+			for _, refresh := range []time.Duration{0, 30 * time.Second} {
+				e := vNewEnv(t, vEnvCfg{oidc: true, redis: redis, mod: func(o *options.Options) {
+					o.Cookie.Expire = exp
+					o.Cookie.Refresh = refresh
+					o.Providers[0].OIDCConfig.InsecureSkipNonce = true
+				}})
+				es := int64(exp / time.Second)
+				ages := []int64{0, 5, es - 3, es - 2, es - 1, es + 1, es + 2, es + 3, es * 2, -295, -298, -302, -305, -600}
+				for _, age := range ages {
+					b := e.newBrowser("https://app.example.com")
+					// the identity provider refuses refreshes in this sweep: a due refresh keeps the old session (validation passes)
+					e.idp.onToken = func(url.Values) (int, string, string, error) { return 400, "application/json", `{"error":"invalid_grant"}`, nil }
+					created := time.Now().Add(-time.Duration(age) * time.Second)
+					expires := time.Now().Add(time.Hour)
+					s := &sessionsapi.SessionState{CreatedAt: &created, ExpiresOn: &expires, Email: "user@example.com", User: "u", AccessToken: "at",
+						IDToken: vJWT(vKeyRSA, "RS256", vClaims("user@example.com", nil))}
+					rw := httptest.NewRecorder()
+					if err := e.p.sessionStore.Save(rw, httptest.NewRequest("GET", "https://app.example.com/", nil), s); err != nil {
+						t.Fatal(err)
+					}
+					cs := (&http.Response{Header: rw.Header()}).Cookies()
+					b.jar.SetCookies(b.origin, cs)
+					// Max-Age = the configured lifetime; server-side entry stored with that lifetime
+					for _, c := range cs {
+						if c.MaxAge != int(es) {
+							out.Violation("lifetime/max-age", "the Max-Age given to the browser is not the configured lifetime",
+								map[string]interface{}{"max_age": c.MaxAge, "expire_s": es, "redis": redis})
+						}
+					}
+					if redis {
+						e.redis.mu.Lock()
+						for k, ent := range e.redis.data {
+							if ent.ttl != exp {
+								out.Violation("lifetime/store-ttl", "the server-side entry is not stored with the configured lifetime",
+									map[string]interface{}{"key": k, "ttl": ent.ttl.String(), "expire": exp.String()})
+							}
+						}
+						e.redis.mu.Unlock()
+					}
+					sent := b.cookieHeader("/")
+					var pcs []vNV
+					for _, c := range b.jar.Cookies(b.origin) {
+						pcs = append(pcs, vNV{c.Name, c.Value})
+					}
+					if redis {
+						e.redis.ResetOps()
+					}
+					t0 := time.Now().UnixNano()
+					res := b.get("/oauth2/userinfo")
+					t1 := time.Now().UnixNano()
+					ok := res.Status == 200
+					o := e.opts.Cookie
+					near := age-es >= -3 && age-es <= 3 || age+300 >= -5 && age+300 <= 5
+					if sent != "" {
+						if redis {
+							impl := vNone
+							for _, op := range e.redis.Ops() {
+								if op.Kind == "get" {
+									impl = vSome(vS(op.Key)) // the store is read only for a ticket whose cookie validated
+									break
+								}
+							}
+							out.Case("store-window/redis", near, impl,
+								vL("ticket_key", vTable(vMacsFor(o.Secret, []string{o.Name}, pcs)), vCfgMain(&o), vNVsx(pcs), vI(t0), vI(t1)))
+						} else {
+							out.Case("store-window/cookie", near, vBool(ok),
+								vL("cs_load_ok", vTable(vMacsFor(o.Secret, []string{o.Name}, pcs)), vCfgMain(&o), vNVsx(pcs), vI(t0), vI(t1)))
+						}
+					}
+					out.Stat("store_window_cases", 1)
+					if ok && age >= es+1 {
+						out.Violation("lifetime/expired-session-honoured", "a session was honoured although cookie-expire has elapsed since it was issued",
+							map[string]interface{}{"redis": redis, "expire_s": es, "age_s": age, "refresh": refresh.String()})
+					}
+					if ok && age <= -302 {
+						out.Violation("lifetime/future-session-honoured", "a session issued more than five minutes in the future was honoured",
+							map[string]interface{}{"redis": redis, "age_s": age})
+					}
+				}
+				// a refresh resets the age: a session older than the refresh period is refreshed, and the new
+				// cookie's lifetime runs from now
+				if refresh > 0 {
+					b := e.newBrowser("https://app.example.com")
+					b.seedSession("user@example.com", time.Duration(es-10)*time.Second, 20)
+					e.idp.refreshTo("user@example.com", 20)
+					r1 := b.get("/page")
+					if !r1.Hit() {
+						out.Violation("lifetime/refresh-flow", "a session inside its lifetime and due for refresh was not served", map[string]interface{}{"status": r1.Status, "redis": redis})
+						continue
+					}
+					// the re-saved credential carries a timestamp of now: decode it from the cookie value
+					for _, c := range b.jar.Cookies(b.origin) {
+						if c.Name == e.opts.Cookie.Name || strings.HasPrefix(c.Name, e.opts.Cookie.Name+"_0") {
+							parts := strings.Split(c.Value, "|")
+							if len(parts) == 3 {
+								ts, _ := strconv.ParseInt(parts[1], 10, 64)
+								if d := time.Now().Unix() - ts; d < -2 || d > 5 {
+									out.Violation("lifetime/refresh-does-not-reset-age", "after a refresh the credential's issue time is not the time of the refresh",
+										map[string]interface{}{"delta_s": d, "redis": redis})
+								}
+							}
+						}
+					}
+					out.Stat("refresh_resets", 1)
+				}
+			}
+		}
 	}
 }
